@@ -12,6 +12,7 @@
 //	          default action of SIGXFSZ restored, or SIGKILL injected on entry of fchmod / fsync / rename);
 //	          after every store the file is read through the real getter; with "oneproc" all stores of the
 //	          history run in ONE child process on ONE long-lived store object (obj.go)
+//	reread    quick store / read sequences of same-length values on one long-lived store object (reread.go)
 //
 // Large values and exact file sizes for the round trips: big.go.
 package main
@@ -28,6 +29,7 @@ import (
 	"path/filepath"
 	"reflect"
 	"regexp"
+	"sort"
 	"strconv"
 	"strings"
 	"syscall"
@@ -38,6 +40,8 @@ import (
 	"github.com/libp2p/go-libp2p/core/crypto"
 	"github.com/libp2p/go-libp2p/core/peer"
 	ma "github.com/multiformats/go-multiaddr"
+	"github.com/taurusgroup/multi-party-sig/pkg/math/curve"
+	"github.com/taurusgroup/multi-party-sig/pkg/party"
 
 	"verifharness/vgen"
 )
@@ -62,6 +66,9 @@ type Value struct {
 	NEd     int      `json:"ned,omitempty"`
 	PSeed   int      `json:"pseed,omitempty"`
 	TopoGen *TopoGen `json:"topogen,omitempty"`
+	// key shares: the same key material with two entries exchanged (ECDSA: Ks[0] and Ks[1]; FROST: the
+	// verification shares of the two smallest party ids) - a DIFFERENT share whose file has the SAME length
+	Swap bool `json:"swap,omitempty"`
 }
 
 // Step is one store attempt of a history.  The number of bytes after which a write fails / the process
@@ -78,7 +85,7 @@ type Step struct {
 }
 
 type Case struct {
-	Kind  string `json:"kind"`  // trace | sweep | roundtrip | history
+	Kind  string `json:"kind"`  // trace | sweep | roundtrip | history | reread
 	Store string `json:"store"` // ecdsa | frost | topology
 	Old   *Value `json:"old,omitempty"`
 	New   Value  `json:"new"`
@@ -88,6 +95,15 @@ type Case struct {
 	OneProc bool `json:"oneproc,omitempty"`
 	// roundtrip: the value is adjusted so that the stored file has exactly Size bytes (fitSize)
 	Size int `json:"size,omitempty"`
+	// reread (reread.go): quick store / read sequences on ONE long-lived store object in one process:
+	// Ops = one character per operation, a digit = store Vals[digit], 'r' = read through the getter of the
+	// long-lived object and of a fresh one; Pin: the file is given one fixed modification time after every
+	// store (what a file system with coarse timestamps shows for stores within one tick)
+	Vals []Value `json:"vals,omitempty"`
+	Ops  string  `json:"ops,omitempty"`
+	Pin  bool    `json:"pin,omitempty"`
+	// the sequence is run Episodes times (0 = once), each time on a fresh directory, file and store object
+	Episodes int `json:"episodes,omitempty"`
 	G     int    `json:"g,omitempty"`    // trace: spacing of the write cut points the judge enumerates
 	Step  int    `json:"step,omitempty"` // sweep: 1 = every k; n > 1 = every k in the first and last 192 bytes and every n-th in between
 }
@@ -114,6 +130,18 @@ type Obs struct {
 	Note  string `json:"note,omitempty"`
 	Hist  []StepObs `json:"hist,omitempty"`
 	Vids  []int     `json:"vids,omitempty"` // history: number of the initial value and of each step's value (equal values share a number)
+	// reread: per read the number of the value stored last and what the two getters returned (-1 = error /
+	// another value); the lengths of the values' files; how many stores shared their modification time
+	// with the store before
+	Reads   []ReadObs `json:"reads,omitempty"`
+	Lens    []int     `json:"lens,omitempty"`
+	SameTick int      `json:"sametick,omitempty"`
+}
+
+type ReadObs struct {
+	V  int `json:"v"`
+	R1 int `json:"r1"` // the long-lived object's getter
+	R2 int `json:"r2"` // a fresh object's getter
 }
 
 // StepObs is what one store attempt of a history did.
@@ -123,6 +151,8 @@ type StepObs struct {
 	Data string `json:"data"` // hex of the bytes a complete store of the value writes
 	Ops  []Op   `json:"ops"`
 	Read int    `json:"read"` // number of the value the real getter returned afterwards, -1 = error / other
+	// one-process histories: what the getter of the LONG-LIVED store object returned (Read: a fresh object's)
+	Read2 int `json:"read2"`
 	File string `json:"file"` // hex of the file afterwards
 	End  string `json:"end"`  // how the child ended
 }
@@ -155,7 +185,13 @@ func ecdsaValue(v Value) keyshare.ECDSAKeyshare {
 	}
 	k.Threshold = v.Threshold
 	k.Peers = allPeers(v)
-	return extendECDSA(k, v.Parties)
+	k = extendECDSA(k, v.Parties)
+	if v.Swap && len(k.Key.Ks) >= 2 {
+		ks := append(k.Key.Ks[:0:0], k.Key.Ks...)
+		ks[0], ks[1] = ks[1], ks[0]
+		k.Key.Ks = ks
+	}
+	return k
 }
 
 func frostValue(v Value) keyshare.FrostKeyshare {
@@ -165,7 +201,24 @@ func frostValue(v Value) keyshare.FrostKeyshare {
 	}
 	k.Threshold = v.Threshold
 	k.Peers = allPeers(v)
-	return extendFrost(k, v.Parties, v.PSeed)
+	k = extendFrost(k, v.Parties, v.PSeed)
+	if v.Swap && k.Key != nil && len(k.Key.VerificationShares) >= 2 {
+		ids := make([]string, 0, len(k.Key.VerificationShares))
+		for id := range k.Key.VerificationShares {
+			ids = append(ids, string(id))
+		}
+		sort.Strings(ids)
+		cfg := *k.Key
+		vs := make(map[party.ID]*curve.Secp256k1Point, len(ids))
+		for id, p := range k.Key.VerificationShares {
+			vs[id] = p
+		}
+		a, b := party.ID(ids[0]), party.ID(ids[1])
+		vs[a], vs[b] = vs[b], vs[a]
+		cfg.VerificationShares = vs
+		k.Key = &cfg
+	}
+	return k
 }
 
 // topoPeers: the explicit peers of a topology value followed by the generated ones
@@ -253,6 +306,8 @@ func childMain(mode string) {
 	switch mode {
 	case "ohist":
 		ohistChild()
+	case "reread":
+		rereadChild()
 	case "store":
 		// exactly one real Store call (the value is built before, so that the trace of the store
 		// itself is the tail of the system-call log after the marker file is touched)
@@ -768,6 +823,7 @@ func runHistory(c Case, dir, path string) Obs {
 				}
 			}
 		}
+		so.Read2 = so.Read
 		o.Hist = append(o.Hist, so)
 	}
 	return o
@@ -807,6 +863,8 @@ func run(c Case) (o Obs) {
 	switch c.Kind {
 	case "history":
 		return runHistory(c, dir, path)
+	case "reread":
+		return runReread(c, dir)
 	case "roundtrip":
 		nv := c.New
 		if c.Size > 0 {
@@ -968,7 +1026,7 @@ func gen(r *vgen.Rng, tier string) []Case {
 	all := genAll(r, tier)
 	var heavy, light, out []Case
 	for _, c := range all {
-		if c.Kind == "roundtrip" {
+		if c.Kind == "roundtrip" || c.Kind == "reread" {
 			light = append(light, c)
 		} else {
 			heavy = append(heavy, c)
@@ -1329,6 +1387,7 @@ func genAll(r *vgen.Rng, tier string) []Case {
 	// histories
 	out = append(out, genHistories(r, thorough)...)
 	out = append(out, genObjHistories(r, thorough)...)
+	out = append(out, genRereads(r, thorough)...)
 	// failed-write sweeps at every byte offset 0..len
 	nsw := map[string]int{"topology": 6, "frost": 3, "ecdsa": 1}
 	if thorough {
@@ -1494,10 +1553,13 @@ func coqHistory(c Case, o Obs) string {
 			}
 			return coqOp(x, "")
 		})
-		read := "ROther"
-		if so.Read >= 0 {
-			read = "(RVal " + vgen.N(uint64(so.Read)) + ")"
+		rd := func(x int) string {
+			if x >= 0 {
+				return "(RVal " + vgen.N(uint64(x)) + ")"
+			}
+			return "ROther"
 		}
+		read := rd(so.Read) + " " + rd(so.Read2)
 		fate := map[string]string{"done": "Done", "failed": "Failed", "died": "Died"}[so.Fate]
 		atts[i] = "mkHAtt " + vgen.N(uint64(o.Vids[i+1])) + " " + fate + " " + fmt.Sprintf("d%d", i+1) + " " + ops + " " + read + " " + ref(so.File)
 	}
@@ -1514,6 +1576,8 @@ func coq(c Case, o Obs) string {
 	switch c.Kind {
 	case "history":
 		return coqHistory(c, o)
+	case "reread":
+		return coqReread(c, o)
 	case "trace":
 		// the final contents usually are the data of one write: share the literal
 		return "(let d := " + lit(o.Final) + " in Trace " + vgen.N(uint64(c.G)) + " " + lit(o.Old) + " " +
@@ -1570,6 +1634,8 @@ func main() {
 			switch {
 			case c.Kind == "history" && c.OneProc:
 				return "history1p-" + c.Store
+			case c.Kind == "reread" && c.Pin:
+				return "reread-pinned-" + c.Store
 			case c.Kind == "roundtrip" && isLarge(c):
 				return "roundtrip-large-" + c.Store
 			}
@@ -1583,12 +1649,14 @@ func main() {
 				return o.Len > 0
 			case "history":
 				return len(o.Hist) >= 2
+			case "reread":
+				return rereadNonTrivial(c, o)
 			}
 			if isLarge(c) {
 				return o.Len > 16000
 			}
 			return c.Store != "topology" || len(c.New.Topo) > 0 || c.Size > 0
 		},
-		Rule: "traces: one real store of a generated value over a generated previous value per case, run under strace in a child process; sweeps: a child process repeats the real store with RLIMIT_FSIZE = k for k = 0..len (every byte offset, for all three stores) and reads back with the real getter; histories: 2..4 real stores of generated values of different lengths on one file, each in its own child process under strace over the leftovers of the earlier ones, completing / failing after k bytes (RLIMIT_FSIZE, SIGXFSZ ignored) / killed after k bytes (SIGXFSZ fatal) or on entry of fchmod, fsync, rename (SIGKILL), k chosen over the whole value and beyond the end of a shorter value stored later, the real getter after every store, for all three stores; one-process histories: 2..4 real stores (healthy / failing after k bytes, the last one possibly killed; retries of the same value included) in ONE child process on ONE long-lived store object, the getters of that object and of a fresh one after every store; round trips: topologies of 0..7 peers with 0..2 addresses each and thresholds 1..6, the three fixture ECDSA and FROST shares with generated thresholds and 0, 2..4 peers, large values (ECDSA committees of 10..100, FROST committees of 10..1000, peer lists of hundreds of ids, topologies of 100..1000 peers / 40 addresses per peer / multiaddrs of 250 and 5000 characters) and files of exactly 2^12, 2^16, 2^20 (+-1), one more power of two +-1, random sizes and 2^24+1 bytes for all three stores, the value read back stored again and compared byte for byte; distinct = distinct input JSON; non-trivial = trace with at least one translated operation / history of at least two observed stores / sweep over a non-empty file / round trip of a key share or a topology with at least one peer (large values: a stored file of more than 16000 bytes)",
+		Rule: "traces: one real store of a generated value over a generated previous value per case, run under strace in a child process; sweeps: a child process repeats the real store with RLIMIT_FSIZE = k for k = 0..len (every byte offset, for all three stores) and reads back with the real getter; histories: 2..4 real stores of generated values of different lengths on one file, each in its own child process under strace over the leftovers of the earlier ones, completing / failing after k bytes (RLIMIT_FSIZE, SIGXFSZ ignored) / killed after k bytes (SIGXFSZ fatal) or on entry of fchmod, fsync, rename (SIGKILL), k chosen over the whole value and beyond the end of a shorter value stored later, the real getter after every store, for all three stores; one-process histories: 2..4 real stores (healthy / failing after k bytes, the last one possibly killed; retries of the same value included) in ONE child process on ONE long-lived store object, the getters of that object and of a fresh one after every store (both judged); quick store / read sequences (reread): per store 4 cases on ONE long-lived store object in one process, issued back to back without strace - 2..3 DIFFERENT values whose files have the SAME length (another threshold with the same number of digits, two peers exchanged, a peer id replaced, a port digit changed, two entries of the key material exchanged) stored alternately with a read through the getter of the long-lived object and of a fresh object after every store (200 stores in 20 episodes on fresh files; ECDSA 120), the same with the file's modification time pinned to one instant after every store (50 / 30 stores), and mixed sequences with a value of another length, stores without a read in between and repeated reads (pinned and not); round trips: topologies of 0..7 peers with 0..2 addresses each and thresholds 1..6, the three fixture ECDSA and FROST shares with generated thresholds and 0, 2..4 peers, large values (ECDSA committees of 10..100, FROST committees of 10..1000, peer lists of hundreds of ids, topologies of 100..1000 peers / 40 addresses per peer / multiaddrs of 250 and 5000 characters) and files of exactly 2^12, 2^16, 2^20 (+-1), one more power of two +-1, random sizes and 2^24+1 bytes for all three stores, the value read back stored again and compared byte for byte; distinct = distinct input JSON; non-trivial = trace with at least one translated operation / history of at least two observed stores / a reread sequence in which two different values of the same file length are stored one right after the other / sweep over a non-empty file / round trip of a key share or a topology with at least one peer (large values: a stored file of more than 16000 bytes)",
 	})
 }
